@@ -24,9 +24,16 @@ var c04Users = []string{"alice", "Bob", "a.user", "x.admin", "d@example.org", "e
 
 func propC04(r *Run) {
 	inAgentBubble(r, func(w *AWorld) {
-		cfg := GenConfig(r, "/srv/whawty/base")
+		cfg := twoSetConfig(r, "/srv/whawty/base")
 		w.fs.PutDir(cfg.BaseDir, 0o700)
 		def := cfg.SetMap()[cfg.Default]
+		// swarm: hash upgrades off / local, with or without a password policy -- neither may ever
+		// change what a frontend answers for given credentials
+		upgMode := []string{"", "", "local"}[r.Choose("c04-upgrades", 3)]
+		polType, polCond := "", ""
+		if r.Choose("c04-policy", 3) == 0 {
+			polType, polCond = "zxcvbn", "score >= 3"
+		}
 		stored := map[string]string{}
 		nu := 2 + r.Choose("nusers", 4)
 		for i := 0; i < nu; i++ {
@@ -35,17 +42,21 @@ func propC04(r *Run) {
 				continue
 			}
 			pw := c04Passwords[r.Choose("stored-pw", len(c04Passwords))]
-			salt := make([]byte, def.SaltLen())
+			set := def
+			if r.Choose("c04-record-set", 2) == 1 {
+				set = cfg.Sets[r.Choose("c04-which-set", len(cfg.Sets))] // possibly upgradeable
+			}
+			salt := make([]byte, set.SaltLen())
 			salt[0] = byte(i + 1)
 			ext := ".user"
 			if i == 0 {
 				ext = ".admin"
 			}
-			w.fs.Put(cfg.BaseDir+"/"+u+ext, []byte(RefWrite(def, pw, salt, 1000)+"\n"), 0o600)
+			w.fs.Put(cfg.BaseDir+"/"+u+ext, []byte(RefWrite(set, pw, salt, 1000)+"\n"), 0o600)
 			stored[u] = pw
 		}
 		// store states reached by preceding management operations: a few through the agent itself
-		a, err := w.bootAgent(cfg, "", "", "", "")
+		a, err := w.bootAgent(cfg, upgMode, polType, polCond, "")
 		if err != nil {
 			r.Fail("harness/boot", "%v", err)
 		}
